@@ -14,14 +14,22 @@ from vlib import snapshot, reload
 
 def run(log, verbose=False):
   """-> (diff messages, S, F) after replaying the log."""
-  with EngineProc() as p:
+  p = EngineProc()
+  try:
     p.call('load_empty')
     for i, (tag, actions, ok) in enumerate(log):
+      if tag == 'reopen':       # the check reopened the document here (fresh process loaded from the data columns)
+        fresh, _ = reload.load_from(p, False)
+        p.close()
+        p = fresh
+        continue
       r, e = p.try_apply(json.loads(json.dumps(actions)))
       if verbose:
         print(i, tag, json.dumps(actions)[:300], 'OK' if e is None else 'ERR ' + e.text[:160])
     S = snapshot.take(p)
     F, _ = reload.scratch_snapshot(p)
+  finally:
+    p.close()
   return snapshot.diff(S, F, maxn=12), S, F
 
 
